@@ -4,7 +4,7 @@ Require Import List NArith Bool PeanoNat Lia String.
 Require Import KV.Parser.Utf8 KV.Parser.Unicode KV.Parser.Keywords KV.Parser.Scanners KV.Parser.Grammar KV.Parser.Run.
 Require Import KV.Parser.Utf8Proofs KV.Parser.ScannerProofs KV.Parser.GrammarProofs.
 Require Import KV.Parser.RoundTrip KV.Parser.RoundTrip2 KV.Parser.RoundTrip3 KV.Parser.Lex KV.Parser.StmtRT KV.Parser.FilterRT KV.Parser.FilterRT2
-               KV.Parser.SelectRT KV.Parser.GroupRT KV.Parser.TopRT.
+               KV.Parser.SelectRT KV.Parser.BindRT KV.Parser.ValuesRT KV.Parser.GroupRT KV.Parser.PrologueRT KV.Parser.TopRT KV.Parser.SizeRT.
 Import ListNotations.
 Open Scope N_scope.
 
@@ -28,13 +28,26 @@ Definition st3 : Stmt := mkStmt (tvar sp "s") (mkPG sp (PT (TVar 63 (bs "p"))) (
 
 Definition opv (l : L) (name : string) : SumC := SumOne (ProdOne (OpT (tvar l name))).
 Definition opn (l : L) (ds : string) : SumC := SumOne (ProdOne (OpT (tnum l ds))).
-(* ?x + 2 * (?w - 1) > 1 && ! ?y = 2 || isTRIPLE ( ?t ) *)
+(* ?x + 2 * (?w - 1) > 1 && !(?y = 2 || ?z < 3 ) || isTriple ( ?t ) *)
 Definition lhs : SumC :=
   SumMore (opv [] "x") sp 43 (ProdMore (ProdOne (OpT (tnum sp "2"))) sp 42 (OpP sp (SumMore (opv [] "w") sp 45 (ProdOne (OpT (tnum sp "1")))) [])).
 Definition expr : OrC :=
-  OrMore (OrOne (AndMore (AndOne (AtCmp lhs sp (bs ">") (opn sp "1"))) sp (AtNot sp (AtCmp (opv sp "y") sp (bs "=") (opn sp "2")))))
+  OrMore (OrOne (AndMore (AndOne (AtCmp lhs sp (bs ">") (opn sp "1"))) sp
+                         (AtNot sp (AtParen [] (OrMore (OrOne (AndOne (AtCmp (opv [] "y") sp (bs "=") (opn sp "2")))) sp
+                                                       (AndOne (AtCmp (opv sp "z") sp (bs "<") (opn sp "3")))) sp))))
          cm (AndOne (AtCall sp FnIsTriple (bs "isTriple") sp (tvar sp "t") [] sp)).
 Definition flt : FilterC := {| fl_kl := nl; fl_kw := bs "Filter"; fl_lp := sp; fl_e := expr; fl_rp := sp |}.
+
+(* BIND ( concat (?s, "x", 1) AS ?b )   VALUES ( ?x ?y ) { ( 1 UNDEF ) ( <a> "b" ) }   VALUES ?z { true ex:a } *)
+Definition bnd : BindC :=
+  {| bd_kl := nl; bd_kw := bs "Bind"; bd_l1 := sp; bd_lf := sp; bd_fn := bs "concat"; bd_l2 := sp; bd_a1 := tvar [] "s";
+     bd_more := [mkOM [] (tlit sp "x"); mkOM sp (tnum sp "1")]; bd_l3 := []; bd_las := sp; bd_askw := bs "AS"; bd_v := tvar sp "b"; bd_l4 := sp |}.
+Definition vals2 : ValuesC :=
+  {| vl_kl := nl; vl_kw := bs "VALUES"; vl_vars := VList sp [tvar sp "x"; tvar sp "y"] sp; vl_lb := sp;
+     vl_rows := [RParen sp [VT (tnum sp "1"); VU sp (bs "Undef")] sp; RParen cm [VT (tiri sp "a"); VT (tlit sp "b")] []]; vl_rb := sp |}.
+Definition vals1 : ValuesC :=
+  {| vl_kl := nl; vl_kw := bs "values"; vl_vars := VSingle (tvar sp "z"); vl_lb := [];
+     vl_rows := [RBare (VT (mkO sp (TBool true))); RBare (VT (tpn sp "ex" "a"))]; vl_rb := sp |}.
 
 Definition inner : Sel :=
   MkSel sp (bs "select") None (PStar sp) [] None (MkGrp sp (ItCons (ItStmt st3 None) ItNil) sp) None
@@ -43,10 +56,13 @@ Definition body : Grp :=
   MkGrp sp
     (ItCons (ItStmt st1 (Some sp))
     (ItCons (ItFilter flt)
+    (ItCons (ItBind bnd)
+    (ItCons (ItValues vals2)
+    (ItCons (ItValues vals1)
     (ItCons (ItGraph nl (bs "GRAPH") (tvar sp "g") (MkGrp sp (ItCons (ItStmt st2 None) ItNil) []) None)
     (ItCons (ItAlts (BrGroup (MkGrp nl (ItCons (ItStmt st3 None) ItNil) sp))
                     (AltCons sp (bs "Union") (BrSub sp inner cm) AltNil) (Some []))
-     ItNil))))
+     ItNil)))))))
     nl.
 Definition agg : AggC :=
   {| ag_l0 := sp; ag_wrap := Some ([], sp); ag_fn := AgSum; ag_kw := bs "Sum"; ag_lp := []; ag_var := tvar [] "x"; ag_rp := [];
@@ -60,24 +76,33 @@ Definition query : Sel :=
         (Some {| ob_l := nl; ob_kw := bs "ORDER"; ob_l2 := sp; ob_kw2 := bs "BY"; ob_first := OCDir sp true (bs "DESC") [] (tvar sp "s") sp;
                  ob_more := [ {| oi_comma := Some []; oi_c := OCVar (tvar sp "t") |}; {| oi_comma := None; oi_c := OCDir sp false (bs "asc") sp (tvar [] "s") [] |} ] |})
         (Some {| lm_l := nl; lm_kw := bs "LIMIT"; lm_l2 := sp; lm_ds := bs "10" |}).
+Definition prologue : list PrefixC :=
+  [ {| px_l := []; px_kw := bs "PREFIX"; px_l2 := sp; px_p := bs "ex"; px_l3 := sp; px_iri := map IC (bs "http://e/") |};
+    {| px_l := nl; px_kw := bs "prefix"; px_l2 := cm; px_p := []; px_l3 := []; px_iri := map IC (bs "#") |} ].
 Definition tail : EndC := {| e_lay := nl; e_comment := Some (bs " done") |}.
 
-Example query_wf : wf_sel query true (pr_end tail) = true /\ wf_end tail = true.
-Proof. vm_compute. split; reflexivity. Qed.
-Example query_size : (sz_sel query <= 64)%nat.
+Example query_wf : forallb wf_prefix prologue = true /\ wf_sel query true (pr_end tail) = true /\ wf_end tail = true.
+Proof. vm_compute. repeat split; reflexivity. Qed.
+Example query_size : (sz_sel query <= 100)%nat.
 Proof. vm_compute. lia. Qed.
 
-(* The printed request (layout and letter case as annotated above):
+(* The printed request (layout, comments and letter case as annotated above; a tab follows each `# note` line break):
 
-    # note
+   PREFIX ex: <http://e/>
+   prefix # note
+   	:<#> # note
    	SELECT Distinct ?s (Sum(?x) as ?t )
    FROM <g>
    from NAMED ex:h
    WHERE {
    ?s <p> ?o # note
    	; ex:q "a", 1 .
-   Filter (?x + 2 * (?w - 1) > 1 && ! ?y = 2 # note
+   Filter (?x + 2 * (?w - 1) > 1 && !(?y = 2 || ?z < 3 ) # note
    	|| isTriple ( ?t ) )
+   Bind ( concat (?s, "x" , 1) AS ?b )
+   VALUES ( ?x ?y ) { ( 1 Undef ) # note
+   	( <a> "b") }
+   values ?z{ true ex:a }
    GRAPH ?g { ?a a ?c; }
    { ?s ?p ?o } Union { select * { ?s ?p ?o } order by ?s # note
    	}.
@@ -85,26 +110,34 @@ Proof. vm_compute. lia. Qed.
    GROUP BY ?s ?t
    ORDER BY DESC( ?s ), ?t asc (?s)
    LIMIT 10
-   # done                                                                                                       *)
-Definition query_text : str := pr_sel query ++ pr_end tail.
+   # done
+*)
+Definition query_text : str := pr_prologue prologue ++ pr_sel query ++ pr_end tail.
 
 (* the theorem, instantiated *)
-Example query_parse : parse_sparql_query 64 query_text = Ok (tr_sel query).
-Proof. apply query_roundtrip; [exact query_size|exact (proj1 query_wf)|exact (proj2 query_wf)]. Qed.
-Example query_parse_top : parse_top 64 false query_text = Ok (TSelect [] (tr_sel query)).
-Proof. apply top_select_roundtrip; [exact query_size|exact (proj1 query_wf)|exact (proj2 query_wf)]. Qed.
-(* ... and the same by evaluating the model, with the fuel the check uses *)
+Example query_parse : parse_sparql_query 100 query_text = Ok (tr_sel query).
+Proof. apply query_roundtrip; [exact query_size|exact (proj1 query_wf)|exact (proj1 (proj2 query_wf))|exact (proj2 (proj2 query_wf))]. Qed.
+Example query_parse_top : parse_top 100 false query_text = Ok (TSelect [(bs "ex", bs "http://e/"); ([], bs "#")] (tr_sel query)).
+Proof. exact (top_select_roundtrip prologue query tail 100 false query_size (proj1 query_wf) (proj1 (proj2 query_wf)) (proj2 (proj2 query_wf))). Qed.
+(* with the fuel the check uses: by the theorem ... *)
+Example query_parse_default : parse_sparql_query (default_fuel query_text) query_text = Ok (tr_sel query).
+Proof. exact (proj1 (query_roundtrip_default prologue query tail false (proj1 query_wf) (proj1 (proj2 query_wf)) (proj2 (proj2 query_wf)))). Qed.
+(* ... and by evaluating the model *)
 Example query_parse_computed : parse_sparql_query (default_fuel query_text) query_text = Ok (tr_sel query).
 Proof. vm_compute. reflexivity. Qed.
 
 (* operator precedence and the shape of the source tree *)
 Example expr_tree :
-  tr_or expr = FOr (FAnd (FCmp (bs "?x + 2 * (?w - 1)") (bs ">") (bs "1")) (FNot (FCmp (bs "?y") (bs "=") (bs "2"))))
+  tr_or expr = FOr (FAnd (FCmp (bs "?x + 2 * (?w - 1)") (bs ">") (bs "1"))
+                         (FNot (FOr (FCmp (bs "?y") (bs "=") (bs "2")) (FCmp (bs "?z") (bs "<") (bs "3")))))
                    (FCall kw_istriple [bs "?t"]).
 Proof. vm_compute. reflexivity. Qed.
 Example body_tree :
   tr_grp body = GJoin [ GBgp [(bs "?s", bs "<p>", bs "?o"); (bs "?s", bs "ex:q", bs """a"""); (bs "?s", bs "ex:q", bs "1")];
                         GFilter (tr_or expr);
+                        GBind lit_CONCAT [bs "?s"; bs "x"; bs "1"] (bs "?b");
+                        GValues [bs "?x"; bs "?y"] [[VTerm (bs "1"); VUndef]; [VTerm (bs "<a>"); VTerm (bs """b""")]];
+                        GValues [bs "?z"] [[VTerm (bs "true")]; [VTerm (bs "ex:a")]];
                         GGraph (bs "?g") (GBgp [(bs "?a", bs "a", bs "?c")]);
                         GUnion [ GBgp [(bs "?s", bs "?p", bs "?o")];
                                  GSub (Select false [([42], [42], None)] [] [] (GBgp [(bs "?s", bs "?p", bs "?o")]) [] [(bs "?s", false)] None) ] ].
